@@ -503,6 +503,22 @@ func (ex *Exec) builtin(f *frame, st *State, instr ssa.Instruction, b *ssa.Built
 		comp := compElem(sl.Elem())
 		es := sc.sortOf(sl.Elem())
 		arr := ex.get(st, comp, arraySort(SInt, arraySort(SInt, es)))
+		if args[1].Sort == SSlice {
+			// exact (memmove) semantics: n = min(len(dst), len(src)); dst[i] = old src[i] for i < n; everything else unchanged.
+			// The new row is a lambda over the OLD rows, so overlapping source and destination are handled.
+			dst, src := args[0], args[1]
+			n := sc.define(sc.freshName("copyn"), ite(app(SBool, "<=", app(SInt, "slen", dst), app(SInt, "slen", src)), app(SInt, "slen", dst), app(SInt, "slen", src)))
+			doff, soff := app(SInt, "soff", dst), app(SInt, "soff", src)
+			oldDst := sel(arr, app(SInt, "sarr", dst))
+			oldSrc := sel(arr, app(SInt, "sarr", src))
+			j := Term{"cpj", SInt}
+			body := ite(and(app(SBool, "<=", doff, j), app(SBool, "<", j, app(SInt, "+", doff, n))),
+				sel(oldSrc, app(SInt, "+", soff, app(SInt, "-", j, doff))), sel(oldDst, j))
+			row := Term{"(lambda ((cpj Int)) " + body.S + ")", arraySort(SInt, es)}
+			ex.set(st, comp, store(arr, app(SInt, "sarr", dst), row))
+			set(n)
+			break
+		}
 		ex.set(st, comp, store(arr, app(SInt, "sarr", args[0]), sc.freshConst("copied", arraySort(SInt, es))))
 		c := sc.freshConst("copyn", SInt)
 		ex.assume(st, app(SBool, ">=", c, intLit(0)))
